@@ -231,7 +231,9 @@ pub fn eval(input: &str) -> String {
             tok.push('{');
             tok.push_str(&evs.join(","));
             tok.push('}');
-            tok.push_str(&format!("x{:x}", xml_len));
+            // ... and the size after the operation (the listing a publish at the end of a read builds)
+            let xml_after = sender.fdt_xml_data(t_ms(now_ms)).map(|x| x.len()).unwrap_or(0);
+            tok.push_str(&format!("x{:x}y{:x}", xml_len, xml_after));
             toks.push(tok);
         }
         out.extend(toks);
